@@ -87,6 +87,20 @@ def report(res, verbose=False, partial=False):
                explanation=('every obligation is generated from the current source text of /repo by pyvc and '
                             'discharged by z3 (cvc5 for z3-unknowns); counts are distinct named obligations, '
                             'each possibly checked on several paths'))
+    # obligations that are not solver queries: AST-audit sites and closed terms evaluated under CPython
+    byb = dict(cov['by_backend'])
+    others = [e for e in res['by_name'].values() if e.get('kind') in ('audit', 'closed-term')]
+    for e in others:
+        for b_ in sorted(e.get('backends') or []):
+            byb[b_] = byb.get(b_, 0) + 1
+    cov['by_backend'] = byb
+    closed = [e for e in others if e['kind'] == 'closed-term']
+    if closed:
+        cov['closed_terms'] = [dict(obligation=e['name'], clause=e.get('clause'), status=e['status'], value=e.get('model'))
+                               for e in closed]
+        cov['explanation'] += ('; module-level constants the property depends on are evaluated as closed terms under the '
+                               "repository's interpreter (pyvc/native/closed_terms.py; no inputs to quantify over, superset "
+                               'tests) and counted among the obligations with back end cpython-closed-term')
     cov['bounded_standins'] = [dict(name=b['name'], covers=b['what'], reason=b['why'], bound=b['bound'], cases=b['cases'],
                                     nontrivial_cases=b['nontrivial'], disagreements=len(b['disagreements']),
                                     tool='/venv/bin/python ' + b['result_file'].rsplit('/', 1)[0], time_s=round(b['time'], 2))
